@@ -385,6 +385,10 @@ func (w *lw) afterCrash(op h.Op) {
 		p := h.Prot{RK: m.ReadKeyOf(l)}
 		for _, id := range ids {
 			if m.IsUncertain(ln, id) {
+				// already open for another reason (say, it depends on an item whose
+				// expiry the engine has not observed yet): whether the interrupted
+				// write replaced it stays open after that other reason is settled
+				m.MarkFault(ln, id)
 				continue
 			}
 			var got core.Map
@@ -398,7 +402,7 @@ func (w *lw) afterCrash(op h.Op) {
 			switch g {
 			case newK:
 				if nit, ok := newM.Loc(ln).Items[id]; ok {
-					l.Items[id] = nit
+					m.AdoptWritten(ln, nit)
 				} else {
 					delete(l.Items, id)
 				}
@@ -827,8 +831,9 @@ func (w *lw) step(op h.Op) {
 		var err error
 		w.call("reload", func() { err = w.eng.RestartAll(op.B) })
 		w.tr("reload crash=%v -> %s", op.B, isErr(err))
-		if err != nil && w.eng.Store.ErrorsFired() != w.f0 {
-			// the load itself hit the injected failure and reported it: open again
+		for try := 0; try < 6 && err != nil && w.eng.Store.ErrorsFired() != w.f0; try++ {
+			// the load itself hit an injected failure and reported it: open again
+			// (a plan may place several failures on consecutive calls)
 			w.f0 = w.eng.Store.ErrorsFired()
 			w.call("reload", func() { err = w.eng.RestartAll(op.B) })
 			w.tr("reload again -> %s", isErr(err))
